@@ -12,6 +12,7 @@ import structlog
 from .. import templates
 from ..ode import ODE
 from .. import atoms
+from .. import exceptions
 from .. import schemes
 
 logger = structlog.get_logger()
@@ -126,6 +127,17 @@ class CodeGenerator(abc.ABC):
         self.remove_unused = remove_unused
         self._missing_variables = ode.missing_variables
         self._shape = shape
+
+        # The arguments of the generated functions and the temporaries of the schemes cannot
+        # be renamed by the printer. A model quantity with such a name would capture them
+        reserved = {"t", "time", "dt", "states", "parameters", "values", "missing_variables"}
+        reserved |= {f"d{state.name}_dt_linearized" for state in ode.states}
+        names = {x.name for x in (*ode.states, *ode.parameters, *ode.intermediates)}
+        if clash := sorted(names & reserved):
+            raise exceptions.GotranxError(
+                f"Cannot generate code for {ode.name!r}: the names {clash} "
+                "are used by the generated code itself"
+            )
 
         if remove_unused:
             self.deps = self.ode.dependents()
